@@ -24,6 +24,7 @@ RULE = ('Hypothesis: sources over letters, < > & " \' tab, blank, line break, ba
         'context excerpts containing < > & " "><script> </span> <br>; context sizes -1, 0, 1, 2, 5. oracle on the parsed report: tag whitelist; span carries only style/title; decoded title == composed '
         'message; each numbered row == that source line; numbers 1..n for negative context; every match exactly once (in place or in the overlap list) with highlighted text == source span it maps to. '
         'non-trivial = at least two matches in one region, or HTML-special characters inside a highlighted span or a message; distinct by (source, matches, context)')
+RULE += ' Additions: per-cent signs and backslash sequences in messages; the number in front of an overlap-list entry is the line of its match; shell sample with files lacking the final line break.'
 ASSUMPTIONS = [
     'messages, suggestions and contexts may contain line breaks (they stay line breaks inside the title text)',
     'matches lie inside the submitted text (offset + length <= len(text)); matches touching the padded map entries cannot come from a proofreader',
